@@ -9,7 +9,7 @@ ID = "C10"
 LEVEL = "exploration"
 BUDGET = {"quick": 55, "thorough": 900}
 QUICK_CASES = 1200  # generator items in the quick tier (fixed amount of work; BUDGET is then only a safety cap)
-FLOOR = {"quick": 400, "thorough": 4000}
+FLOOR = {"quick": 400, "thorough": 400}  # conclusive cases below which a run is inconclusive (the thorough tier is time-budgeted: same floor)
 TIMEOUT = 120
 HASHSEEDS = {"quick": [0, 1, 2, 3], "thorough": list(range(16))}
 REQUIRED_OBS = ["histories", "reloads", "load_records_checked", "contexts_compared", "untouched_contexts_verified", "reexecuted_contexts", "import_edges", "named_or_star_reloads", "app_config_changes", "counter_values_checked", "module_form_swaps", "option_flips"]
